@@ -79,7 +79,7 @@ def riscv_ri_shifts(obj, imm, rs1, rd):
 @ispec("32<[ imm(20) rd(5) 0010111 ]", mnemonic="AUIPC")
 def riscv_ri_arithmetic2(obj, imm, rd):
     dst = env.x[rd]
-    imm = env.cst(imm << 12, 64)
+    imm = env.cst(imm << 12, 32).signextend(64)
     obj.operands = [dst, imm]
     obj.type = type_data_processing
 
